@@ -1,6 +1,7 @@
 """C03-P (bounded): differential check of the real parser against the independent reference parser (refparser.py)
 on every accepted token-type sequence of <= N tokens (plus sequences one token beyond the accepted frontier that the
-reference accepts), each in two whitespace layouts: same accept/reject decision, equal trees (== and fingerprint),
+reference accepts), each in two whitespace layouts, and once more with texts that probe token boundaries and reserved words (escapes, lower / mixed
+case and embedded reserved words, phrases / regexes ending in an escaped backslash): same accept/reject decision, equal trees (== and fingerprint),
 and the two layouts give equal trees."""
 import random
 
@@ -20,13 +21,30 @@ def pieces(seq, variant):
     return [(t, gen.render((t,), variant + i)) for i, t in enumerate(seq)]
 
 
+#: texts that probe the token boundaries and the reserved-word rule (the statement: reserved words are operators only as whole
+#: unescaped tokens, in their documented upper-case spelling; a backslash escapes the next character, also inside phrases / regexes)
+TRICKY = gen.TRICKY
+
+
+def pieces_tricky(seq, variant):
+    out = []
+    for i, t in enumerate(seq):
+        if t in TRICKY:
+            opts = TRICKY[t]
+            out.append((t, opts[(variant * 7 + i * 3) % len(opts)]))
+        else:
+            out.append((t, gen.render((t,), variant + i)))
+    return out
+
+
 def join(toks, layout, rnd):
     out = ""
     for i, (t, txt) in enumerate(toks):
         if i > 0:
             prev = toks[i - 1][0]
             if layout == 0:
-                gap = " " if gen.needs_space(prev, t) else ""
+                # a numeral directly after ~ or ^ belongs to that token: a following text that starts like a numeral needs a blank
+                gap = " " if gen.needs_space(prev, t) or (prev in ("APPROX", "BOOST") and txt[:1] in "0123456789.") else ""
             else:
                 gap = rnd.choice([" ", "  ", "\t", "\n ", "  "])
                 if t == "COLUMN":
@@ -103,6 +121,20 @@ def check(item):
             if not (real[1] == ref[1]) or TR.fingerprint(real[1]) != TR.fingerprint(ref[1]):
                 fails.append({"input": q, "types": list(seq), "signature": "structure",
                               "observation": "real %r, expected %r" % (real[1], ref[1])})
+    if any(t in TRICKY for t in seq):
+        tt = pieces_tricky(seq, idx)
+        q = join(tt, idx % 2, rnd)
+        n += 1
+        real = outcome(lambda: parser.parse(q))
+        ref = outcome(lambda: refparser.reference_parse(tt))
+        if real[0] == "error" or ref[0] == "error":
+            fails.append({"input": q, "types": list(seq), "observation": "unexpected exception %r / %r" % (real[1], ref[1])})
+        elif real[0] != ref[0]:
+            fails.append({"input": q, "types": list(seq), "signature": "accept-mismatch-tricky-texts",
+                          "observation": "real parser: %s, reference on the intended tokens %r: %s" % (real[0], [x for _, x in tt], ref[0])})
+        elif real[0] == "tree" and (not (real[1] == ref[1]) or TR.fingerprint(real[1]) != TR.fingerprint(ref[1])):
+            fails.append({"input": q, "types": list(seq), "signature": "structure-tricky-texts",
+                          "observation": "real %r, expected %r" % (real[1], ref[1])})
     if len(trees) == 2 and not (trees[0] == trees[1] and TR.fingerprint(trees[0]) == TR.fingerprint(trees[1])):
         fails.append({"input": join(toks, 0, rnd), "types": list(seq), "signature": "layout-dependence",
                       "observation": "two whitespace layouts give different trees: %r vs %r" % (trees[0], trees[1])})
